@@ -12,6 +12,15 @@ from .common import FIELD, MESH, REGION
 from .c01 import each, _single_return
 
 FLOOR = 45
+ANCHORS = [
+    'io.ovf._FieldIO_OVF._to_ovf',
+    'io.ovf._FieldIO_OVF._from_ovf',
+    'io._FieldIO.to_file',
+    'io._FieldIO.from_file',
+    'io._MeshIO.save_subregions',
+    'io._MeshIO.load_subregions',
+    'io._MeshIO._subregion_filename',
+]   # functions whose code the property is anchored in (mutation analysis, evidence)
 OVF = "io.ovf._FieldIO_OVF."
 
 # OVF 2.0 specification (OOMMF user guide, "OVF 2.0 format"): keys of a rectangular-mesh segment header
